@@ -439,6 +439,59 @@ func ruleSIB3(w *World, r *Report) {
 			r.Cond(mult, "SIB-3", fmt.Sprintf("%s:score=similarity*factor#%d", name, i+1), w.Pos(c.Pos()), "the factor is multiplied into the score", name+" does not multiply the score by the decay factor")
 		}
 	}
+	// the siblings consult each key under the same circumstances: a key that one caller reads on every path to its
+	// decay computation is read on every path by the others too (an input that is fetched only under some condition —
+	// say, a test of the index default where the per-memory override decides — gives the same memory a different
+	// factor on that search path)
+	{
+		type site struct {
+			name   string
+			pos    token.Pos
+			always map[string]bool
+		}
+		var sites []site
+		for _, fi := range w.ModuleFuncs() {
+			if relPkg(fi.Obj) != "pkg/engine" || fi.Decl.Body == nil || fi.Obj == dm {
+				continue
+			}
+			fn := w.SSAFunc(fi.Obj)
+			if fn == nil {
+				continue
+			}
+			for _, f := range append([]*ssa.Function{fn}, closuresOf(fn)...) {
+				cs := findInstrs(f, callsTo(dm))
+				if len(cs) == 0 {
+					continue
+				}
+				st := site{name: shortName(fi.Obj), pos: cs[0].Pos(), always: map[string]bool{}}
+				for _, k := range want {
+					kk := k
+					isLk := func(in ssa.Instruction) bool {
+						lk, ok := in.(*ssa.Lookup)
+						if !ok {
+							return false
+						}
+						sv, ok := constString(lk.Index)
+						return ok && sv == kk
+					}
+					found, _ := pathQuery{fn: f, target: callsTo(dm), avoid: isLk}.find(entryPos(f))
+					st.always[k] = !found && len(findInstrs(f, isLk)) > 0
+				}
+				sites = append(sites, st)
+			}
+		}
+		for _, k := range want {
+			any := false
+			for _, st := range sites {
+				if st.always[k] {
+					any = true
+				}
+			}
+			for _, st := range sites {
+				r.Cond(!any || st.always[k], "SIB-3", st.name+":consults-"+k+"-like-its-siblings", w.Pos(st.pos), "the key is read on every path to the decay computation wherever a sibling does so", st.name+" reads "+k+" only on some paths to its decay computation while another search path reads it always: the same memory gets a different decay factor here (for example the access count is skipped unless the index default model is Ebbinghaus, although the per-memory override selects the model)")
+			}
+		}
+	}
 	if n < 2 {
 		r.Und("SIB-3", "anchor:decay-sites", "", fmt.Sprintf("%d decay application sites found (expected searchWithFusion and VSearchWithScores)", n))
 	}
